@@ -923,7 +923,7 @@ pub fn run(suite: &str, thorough: bool, seed: u64, shard: usize, nshards: usize,
                 let mut files = render_project(&proj, if i % 3 == 0 { LayoutStyle::Tight } else { LayoutStyle::Plain }, &mut r);
                 if i % 4 == 1 {
                     // several imports / declarations on one line, ambiguous imports, duplicate keys
-                    let extra = "package a;\nimport a.Foo; import b.Foo; import c.Unknown; import android.os.IBinder; parcelable Foo; parcelable X; parcelable Y;\ninterface Dup { void f(Foo a, X b, Y c, IBinder d); }\n";
+                    let extra = "package a;\nimport a.Foo; import b.Foo; import a.Foo.Foo; import c.Unknown; import android.os.IBinder; parcelable Foo; parcelable X; parcelable Y;\ninterface Dup { void f(Foo a, X b, Y c, IBinder d, a.Foo e, Foo.Foo g); }\n";
                     files.push(("extra".to_owned(), extra.to_owned()));
                     files.push(("dup1".to_owned(), "package a;\ninterface Foo {}\n".to_owned()));
                     files.push(("dup2".to_owned(), "package a;\nenum Foo { A }\n".to_owned()));
